@@ -346,7 +346,9 @@ def body_noharm(ctx, det, cfg, kind, k, use_df):
             if kind == "extra-column-frame":
                 # plain inputs so far (a width but no names is remembered), a two-column DataFrame is refused, and the next
                 # valid observation arrives as a one-column DataFrame
-                xx = pd.DataFrame(np.asarray(x, dtype=object).reshape(1, -1), columns=["c0"])
+                a_ok = np.asarray(x, dtype=object)
+                a_ok = a_ok.reshape(1, -1) if a_ok.ndim <= 1 else a_ok  # a batch keeps its rows
+                xx = pd.DataFrame(a_ok, columns=[f"c{j}" for j in range(a_ok.shape[1])])
             bad = _malformed(drv, det, kind, x)
             before = drv.counters(A)
             state_before = A.drift_state
@@ -520,6 +522,14 @@ def jobs(tier):
                     continue
                 out.append(Job(f"noharm-{name}-{kind}-df{int(use_df)}-k{k}", "checks.c14:body_noharm",
                                {"det": det, "cfg": cfg, "kind": kind, "k": k, "use_df": use_df}, expect=("compared",)))
+    # the univariate batch detector after plain inputs: a two-column DataFrame is refused by CDBD's own guard (the shared
+    # validation does not width-check a first DataFrame - the known finding), must not be counted, and must leave the
+    # remembered schema alone (seed C14-8)
+    for db in (2, 3):
+        for k in (1, 2):
+            out.append(Job(f"noharm-CDBD-db{db}-extra-column-frame-k{k}", "checks.c14:body_noharm",
+                           {"det": "HDM", "cfg": {"cls": "CDBD", "detect_batch": db, "statistic": "stdev"},
+                            "kind": "extra-column-frame", "k": k, "use_df": False}, expect=("compared",)))
     out.append(Job("noharm-CDBD-first-reference-two-columns", "checks.c14:body_univariate_first_reference",
                    {"cfg": {"cls": "CDBD", "detect_batch": 2, "statistic": "stdev"}}, expect=("compared",)))
     # (3) containers
